@@ -278,35 +278,38 @@ func (r *reader) readChunk() {
 		return
 	}
 
-	var chunk chunk
+	// skip chunks of unknown type until the next track chunk is found
+	for {
+		var chunk chunk
 
-	r.expectedChunkLength, r.error = chunk.ReadHeader(r.input)
-	r.log("reading header of chunk: %v", r.error)
+		r.expectedChunkLength, r.error = chunk.ReadHeader(r.input)
+		r.log("reading header of chunk: %v", r.error)
 
-	if r.error != nil {
-		// if we are here, not all tracks have been read, so io.EOF would be an error,
-		// so return errors here in each case
-		return
+		if r.error != nil {
+			// if we are here, not all tracks have been read, so io.EOF would be an error,
+			// so return errors here in each case
+			return
+		}
+
+		r.log("got chunk type: %v", chunk.Type())
+		// We have a MTrk
+		if chunk.Type() == "MTrk" {
+			r.log("is track chunk")
+			r.processedTracks++
+			r.expectChunk = false
+			// we are done, lets go to the track events
+			return
+		}
+
+		// The header is of an unknown type, skip over it.
+		_, r.error = io.CopyN(ioutil.Discard, r.input, int64(r.expectedChunkLength))
+		r.log("skipping chunk: %v", r.error)
+		if r.error != nil {
+			return
+		}
+
+		r.expectChunk = true
 	}
-
-	r.log("got chunk type: %v", chunk.Type())
-	// We have a MTrk
-	if chunk.Type() == "MTrk" {
-		r.log("is track chunk")
-		r.processedTracks++
-		r.expectChunk = false
-		// we are done, lets go to the track events
-		return
-	}
-
-	// The header is of an unknown type, skip over it.
-	_, r.error = io.CopyN(ioutil.Discard, r.input, int64(r.expectedChunkLength))
-	r.log("skipping chunk: %v", r.error)
-	if r.error != nil {
-		return
-	}
-
-	r.expectChunk = true
 }
 
 func (r *reader) _readEvent(canary byte) (m Message, err error) {
